@@ -1,7 +1,7 @@
 (* C02 - Point coordinates are the polar-to-Cartesian image of the wire measurement. *)
 From Coq Require Import Reals.
 From RS Require Import Base.Tac Base.Bytes Base.Dyadic Model.Desc Model.Kernels Model.Decoder Gen.Params_gen.
-From RS Require Import Proofs.SplitNum Proofs.Coords Proofs.FloatErr.
+From RS Require Import Proofs.SplitNum Proofs.Coords Proofs.FloatErr Proofs.Transform.
 Local Open Scope Z_scope.
 
 (* T1a: the azimuth advance of a channel lies within the block's step: for every mechanical model
@@ -50,6 +50,34 @@ Theorem C02_T2_vec_budget d vx e1 e2 :
   0 <= d <= 328 -> -32768 <= vx <= 32768 -> Rabs e1 <= u -> Rabs e2 <= u ->
   Rabs (((vx * d) * (1 + e1) / 32768) * (1 + e2) - vx * d / 32768) <= 1 / 1000.
 Proof. exact (vec_error_budget d vx e1 e2). Qed.
+
+(* T4: the transform option. Decoder::Decoder builds Translation(x,y,z) * Rz(yaw) * Ry(pitch) * Rx(roll) and
+   transformPoint applies it to every point after the projection: roll first, yaw last, then the shift *)
+Theorem C02_T4_transform_matrix tx ty tz roll pitch yaw x y z :
+  transform (tx, ty, tz) roll pitch yaw (x, y, z) =
+  let cr := cos roll in let sr := sin roll in
+  let cp := cos pitch in let sp := sin pitch in
+  let cy := cos yaw in let sy := sin yaw in
+  ( (cy * cp) * x + (cy * sp * sr - sy * cr) * y + (cy * sp * cr + sy * sr) * z + tx,
+    (sy * cp) * x + (sy * sp * sr + cy * cr) * y + (sy * sp * cr - cy * sr) * z + ty,
+    (- sp) * x + (cp * sr) * y + (cp * cr) * z + tz ).
+Proof. exact (transform_matrix tx ty tz roll pitch yaw x y z). Qed.
+Print Assumptions C02_T4_transform_matrix.
+(* identity parameters change nothing (the case C20 relies on) *)
+Theorem C02_T4_identity p : transform (0, 0, 0) 0 0 0 p = p.
+Proof. exact (transform_identity p). Qed.
+(* for all six parameters it is a rigid motion: distances between points are preserved *)
+Theorem C02_T4_rigid t roll pitch yaw p q :
+  sqnorm (sub (transform t roll pitch yaw p) (transform t roll pitch yaw q)) = sqnorm (sub p q).
+Proof. exact (transform_rigid t roll pitch yaw p q). Qed.
+Theorem C02_T4_origin t roll pitch yaw : transform t roll pitch yaw (0, 0, 0) = t.
+Proof. exact (transform_origin t roll pitch yaw). Qed.
+(* yaw turns the horizontal plane by that angle; the order roll -> pitch -> yaw is fixed (witness) *)
+Theorem C02_T4_yaw_polar r b yaw z :
+  transform (0, 0, 0) 0 0 yaw (r * cos b, r * sin b, z) = (r * cos (b + yaw), r * sin (b + yaw), z).
+Proof. exact (transform_yaw_polar r b yaw z). Qed.
+Example C02_T4_order_witness : transform (0, 0, 0) (PI / 2) 0 (PI / 2) (0, 1, 0) = (0, 0, 1).
+Proof. exact transform_order_witness. Qed.
 Local Close Scope R_scope.
 
 Example C02_nonvacuous : adv_of 20 (mkdy 13421773 (-27)) = 2 /\ trig_idx (35999 + 20 + 2000) = 38019 /\ trig_idx (-9001) = 0.
